@@ -13,7 +13,9 @@ REPO = os.environ.get("VERIF_REPO", "/repo")
 COQ = os.path.join(VERIF, "coq")
 NCPU = os.cpu_count() or 4
 GUARD_TAG = "verif"
-MAX_REPORTED = 12            # VIOLATION lines / replay files per run; further ones are counted only
+MAX_REPORTED = 12
+# axioms that may appear under Print Assumptions: only ones the Coq standard library declares
+STD_AXIOM_PREFIXES = ("Coq.", "classic", "functional_extensionality", "proof_irrelevance", "JMeq_eq", "Eqdep.Eq_rect_eq", "ClassicalDedekindReals.", "FunctionalExtensionality.", "Classical_Prop.", "ProofIrrelevance.")            # VIOLATION lines / replay files per run; further ones are counted only
 
 GOENV = {
     "GOFLAGS": "-mod=mod", "GOPROXY": "off", "GOSUMDB": "off", "GOTOOLCHAIN": "local",
@@ -207,6 +209,17 @@ class Ctx:
         extra_props: further statement files (Props/<name>.v, e.g. the composition theorems that
         link this property's model to another one's) that this check re-checks as well."""
         targets = list(targets or ["Props/%s.vo" % self.pid]) + ["Props/%s.vo" % n for n in extra_props]
+        # source audit of the whole development (tools/audit.py): no Admitted/Axiom/Parameter/..., no
+        # Variable/Hypothesis outside a Section, no kernel-weakening switch
+        sys.path.insert(0, os.path.join(VERIF, "tools"))
+        import audit as _audit
+        hits, nvars, nfiles = _audit.audit()
+        self.obligations += 1
+        self.coverage["source_audit"] = {"files": nfiles, "section_variables": nvars, "problems": hits[:20]}
+        if hits:
+            self.violation({"kind": "development-audit-failed", "problems": hits[:50]}, found_input=False)
+        else:
+            self.discharged += 1
         ok_build, log = self.coq_build(targets)
         props_ok, pout = (False, log)
         if ok_build:
@@ -252,10 +265,22 @@ class Ctx:
         blocks = re.split(r"(?m)^(?=Closed under the global context|Axioms:|Section Variables:)", out)
         blocks = [b.strip() for b in blocks if b.strip()]
         blocks = [b for b in blocks if b.startswith(("Closed", "Axioms", "Section"))]
+        bad = []
         for i, n in enumerate(names):
             b = blocks[i] if i < len(blocks) else "?"
             b = re.sub(r"\s+", " ", b)
             self.trusted_base.append("Print Assumptions %s: %s" % (n, b[:400]))
+            if not b.startswith("Closed under the global context"):
+                # only axioms the standard library itself declares may appear (none does at present)
+                used = re.findall(r"([\w.']+)\s*:", b[len("Axioms:"):] if b.startswith("Axioms:") else b)
+                if b == "?" or any(not u.startswith(STD_AXIOM_PREFIXES) for u in used) or not used:
+                    bad.append("%s: %s" % (n, b[:300]))
+        if len(names) < len(thms):
+            bad.append("%d statements but only %d Print Assumptions" % (len(thms), len(names)))
+        if bad:
+            self.log("Props/%s.v: assumptions not allowed:\n%s" % (pid, "\n".join(bad)))
+            self.discharged -= len(thms)
+            return False, "assumptions: " + "; ".join(bad)
         return True, out
 
     def coq_eval(self, name, text, timeout=900):
